@@ -97,7 +97,7 @@ def estimate(  # noqa: PLR0913
 
     if lambda_check and any(model.weights != 1.0):
         warnings.warn("Normalizing model to have all 1's for weights")
-        model = model.normalize(0)
+        model = model.copy().normalize(0)  # the caller's model is not modified
     model_vals, Zexp = estimate_helper(model.factor_matrices, data_subs)
 
     F: Optional[float] = None
